@@ -103,6 +103,7 @@ func matcherFor(c *Case) interface{} {
 }
 
 type foundRec struct {
+	phase int
 	kind  int
 	index int64
 	ts    uint64
@@ -123,8 +124,8 @@ func checkScan(t *testing.T, c Case) (v harness.Verdict) {
 	log := buildLog(c.finalSize(), c.PoolSeed, c.PoolStride)
 	var mu sync.Mutex
 	var got []foundRec
-	var late int64
-	o := runCase(t, "scan", &c, log, func(f *fakeLog, returned *atomic.Bool) (func(ctx context.Context) error, func()) {
+	late := make([]int64, 2)
+	outs := runCase(t, "scan", &c, log, func(f *fakeLog, st *runState) (func(ctx context.Context) error, func()) {
 		opts := scanner.ScannerOptions{
 			FetcherOptions: scanner.FetcherOptions{BatchSize: c.Batch, ParallelFetch: c.Fetchers, StartIndex: c.Start, EndIndex: c.End, Continuous: c.Continuous},
 			Matcher:        matcherFor(&c), PrecertOnly: c.PrecertOnly, NumWorkers: c.Workers, BufferSize: c.Buffer,
@@ -132,10 +133,11 @@ func checkScan(t *testing.T, c Case) (v harness.Verdict) {
 		s := scanner.NewScanner(f, opts)
 		found := func(kind int) func(*ct.RawLogEntry) {
 			return func(e *ct.RawLogEntry) {
-				if returned.Load() {
-					atomic.AddInt64(&late, 1)
+				ph := int(st.phase.Load())
+				if st.returned.Load() {
+					atomic.AddInt64(&late[ph], 1)
 				}
-				r := foundRec{kind: kind, index: -1}
+				r := foundRec{phase: ph, kind: kind, index: -1}
 				if e != nil {
 					r.index = e.Index
 					r.ts = e.Leaf.TimestampedEntry.Timestamp
@@ -152,16 +154,47 @@ func checkScan(t *testing.T, c Case) (v harness.Verdict) {
 		run := func(ctx context.Context) error { return s.Scan(ctx, found(kindCert), found(kindPrecert)) }
 		return run, nil
 	})
-	o.late = late
-	classify(&c, o, &v)
-	ok := judgeTermination(&c, o, &v, "Scanner.Scan")
+	classify(&c, outs, &v)
+	v.Class(fmt.Sprintf("matcher:%d", c.Matcher))
+	if c.PrecertOnly {
+		v.Class("precert-only")
+	}
+	if c.Workers >= 2 {
+		v.Class("workers:2+")
+	} else {
+		v.Class("workers:1")
+	}
+	if c.Buffer == 0 {
+		v.Class("buffer:0")
+	} else {
+		v.Class("buffer:1+")
+	}
+	for _, o := range outs {
+		o.late = late[o.phase]
+		var mine []foundRec
+		for _, r := range got {
+			if r.phase == o.phase {
+				mine = append(mine, r)
+			}
+		}
+		judgeScanPhase(&c, o, log, mine, &v)
+	}
+	return v
+}
+
+// judgeScanPhase applies the oracles to one Scan call (a Scanner may be used for several scans: ScanLog
+// resets its counters at the start of every call): exactly-once and completeness hold per call.
+func judgeScanPhase(cp *Case, o *outcome, log []truth, got []foundRec, v *harness.Verdict) {
+	c := *cp
+	tag := fmt.Sprintf("call %d: ", o.phase)
+	ok := judgeTermination(&c, o, v, "Scanner.Scan")
 	e := expect(&c, o)
 	if o.returned && !o.timedOut {
 		switch {
 		case e.first < 0 && o.err == nil:
-			v.Failf("prepare-error-swallowed", "no get-sth was ever answered but Scan returned nil")
-		case e.first >= 0 && o.err != nil:
-			v.Failf("run-error", "Scan returned %v although get-sth was answered", o.err)
+			v.Failf("prepare-error-swallowed", "%sno get-sth was ever answered but Scan returned nil", tag)
+		case e.first >= 0 && o.err != nil && len(o.aborts) == 0:
+			v.Failf("run-error", "%sScan returned %v although get-sth was answered", tag, o.err)
 		}
 	}
 
@@ -201,26 +234,26 @@ func checkScan(t *testing.T, c Case) (v harness.Verdict) {
 		}
 	}
 	if n["dup"] > 0 {
-		v.Failf("duplicate-delivery", "%d indices reported more than once; first: %s", n["dup"], firstMsg["dup"])
+		v.Failf("duplicate-delivery", tag+"%d indices reported more than once; first: %s", n["dup"], firstMsg["dup"])
 	}
 	if n["wrong"] > 0 {
-		v.Failf("wrong-bytes", "%d reports with wrong content; first: %s", n["wrong"], firstMsg["wrong"])
+		v.Failf("wrong-bytes", tag+"%d reports with wrong content; first: %s", n["wrong"], firstMsg["wrong"])
 	}
 	if n["kind"] > 0 {
-		v.Failf("wrong-callback-kind", "%d reports through the wrong callback; first: %s", n["kind"], firstMsg["kind"])
+		v.Failf("wrong-callback-kind", tag+"%d reports through the wrong callback; first: %s", n["kind"], firstMsg["kind"])
 	}
 	if n["unselected"] > 0 {
-		v.Failf("unselected-reported", "%d reports of entries the matcher does not select; first: %s", n["unselected"], firstMsg["unselected"])
+		v.Failf("unselected-reported", tag+"%d reports of entries the matcher does not select; first: %s", n["unselected"], firstMsg["unselected"])
 	}
 	if n["below"] > 0 {
 		if c.Continuous && e.first >= 0 && c.Start > e.first {
-			v.Failf("continuous-start-beyond-tree", "continuous scan with StartIndex %d beyond the tree size %d at start-up reported %d indices below StartIndex; first: %s", c.Start, e.first, n["below"], firstMsg["below"])
+			v.Failf("continuous-start-beyond-tree", tag+"continuous scan with StartIndex %d beyond the tree size %d at start-up reported %d indices below StartIndex; first: %s", c.Start, e.first, n["below"], firstMsg["below"])
 		} else {
-			v.Failf("delivered-below-start", "%d reports below StartIndex; first: %s", n["below"], firstMsg["below"])
+			v.Failf("delivered-below-start", tag+"%d reports below StartIndex; first: %s", n["below"], firstMsg["below"])
 		}
 	}
 	if n["beyond"] > 0 {
-		v.Failf("delivered-beyond-range", "%d reports beyond the range; first: %s", n["beyond"], firstMsg["beyond"])
+		v.Failf("delivered-beyond-range", tag+"%d reports beyond the range; first: %s", n["beyond"], firstMsg["beyond"])
 	}
 	nsel, ncert, npre, ngarbage, nwarnSel := 0, 0, 0, 0, 0
 	for i := e.lo; i < e.hi; i++ {
@@ -244,20 +277,23 @@ func checkScan(t *testing.T, c Case) (v harness.Verdict) {
 		}
 	}
 	if n["missing"] > 0 {
-		v.Failf("missing-delivery", "%d selected indices never reported (Scan returned at %v, cancel issued=%v at %v); first: %s", n["missing"], o.returnedAt, o.stopIssued, o.stopAt, firstMsg["missing"])
+		v.Failf("missing-delivery", tag+"%d selected indices never reported (Scan returned at %v, cancel issued=%v at %v); first: %s", n["missing"], o.returnedAt, o.stopIssued, o.stopAt, firstMsg["missing"])
+	}
+	pre := ""
+	if o.phase > 0 {
+		pre = "again-"
 	}
 	if e.mustAll {
-		v.Class("oracle:complete")
+		v.Class(pre + "oracle:complete")
 	} else {
-		v.Class("oracle:partial")
+		v.Class(pre + "oracle:partial")
 	}
-	v.Class(fmt.Sprintf("matcher:%d", c.Matcher))
-	if c.PrecertOnly {
-		v.Class("precert-only")
+	v.Class(fmt.Sprintf("%sselected:%s", pre, bucket(int64(nsel))))
+	v.Class(fmt.Sprintf("%srange:%s", pre, bucket(e.hi-e.lo)))
+	v.Class(fmt.Sprintf("%sreported:%s", pre, bucket(int64(len(count)))))
+	if o.phase > 0 {
+		return
 	}
-	v.Class(fmt.Sprintf("selected:%s", bucket(int64(nsel))))
-	v.Class(fmt.Sprintf("range:%s", bucket(e.hi-e.lo)))
-	v.Class(fmt.Sprintf("reported:%s", bucket(int64(len(count)))))
 	if ncert > 0 {
 		v.Class("selected:has-cert")
 	}
@@ -270,15 +306,4 @@ func checkScan(t *testing.T, c Case) (v harness.Verdict) {
 	if nwarnSel > 0 {
 		v.Class("selected:has-nonfatal-parse-error")
 	}
-	if c.Workers >= 2 {
-		v.Class("workers:2+")
-	} else {
-		v.Class("workers:1")
-	}
-	if c.Buffer == 0 {
-		v.Class("buffer:0")
-	} else {
-		v.Class("buffer:1+")
-	}
-	return v
 }
